@@ -23,6 +23,7 @@ FOLD = [
     S('ceval_int_bitwise', 'eval_binary_bitwise_expression', 'all pairs of i64, all three operators, arbitrary bit position', '& ^ | bit by bit'),
     S('ceval_bool_ops', 'eval_binary_bitwise_expression, eval_unary_logical_expression, eval_comparison_expression', 'all bools',
       '& ^ | ! == != on bool (ordering of bools excluded: Kani mis-models it)'),
+    S('ceval_shift_count_range', 'eval_shift_expression', 'all pairs of i64, both operators', 'exactly the counts 0..=63 are accepted (incl. counts that are small only modulo 2^32)'),
     S('ceval_shift_left', 'eval_shift_expression', 'all pairs of i64', 'count outside [0,63] rejected; bit i of l<<r is bit i-r of l (modulo 2^64)', T),
     S('ceval_shift_right', 'eval_shift_expression', 'all pairs of i64', 'count outside [0,63] rejected; arithmetic shift: bit i of l>>r is bit i+r of l or the sign', T),
     S('ceval_int_comparison', 'eval_comparison_expression', 'all pairs of i64, six operators', 'result equals the sign of the i128 difference'),
